@@ -32,7 +32,7 @@ Definition has_site (slot file : string) : bool := negb (match sites_of gen_site
 """
 
 MARK = "zvq"
-# payload classes: suffix appended to the slot's canary (identifier remnants of every suffix are of the form [_-]?x?zvq)
+# payload classes: suffix appended to the slot's canary (identifier remnants of every suffix are of the form ([_-]?é中)?[_-]?x?zvq)
 PAYLOADS = {
     "single-quote": "'zvq",
     "double-quote": '"zvq',
@@ -51,12 +51,12 @@ PAYLOADS = {
     "carriage-return": "\rzvq",
     "raw-doc-end": '\\"""zvq',
     "both-quotes": "'\"zvq",
-    "unicode": " é中 zvq",
+    "unicode": " é中zvq",
     "triple-single": "'''zvq",
     "brace-open": "{zvq",
 }
 QUICK = list(PAYLOADS)[:13]
-_REM = re.compile(r"(?i)[_-]?x?zvq")
+_REM = re.compile(r"(?i)([_-]?é中)?[_-]?x?zvq")
 
 
 def cq(s: str) -> str:
@@ -438,7 +438,7 @@ def build_cases(run, tier, table):
     if not quick:
         for _ in range(300):
             l = rng.choice(em)
-            s = S.rand_str(rng, S.HOSTILE + ['"', "'", "\\", "\n", "{", "}"], 6) + MARK
+            s = S.rand_str(rng, [ch for ch in S.HOSTILE if not re.match(r"\w", ch) and ch != "\x00"] + ['"', "'", "\\", "\n", "{", "}"], 6) + " " + MARK
             meta, cfg = rng.choice(cfgs_for(l))
             cases.append({"slots": {l: s}, "classes": {l: "random"}, "meta": meta, "cfg": cfg, "kind": "random"})
     return cases
@@ -523,6 +523,9 @@ def run(run, tier, replay=None):
             run.known_finding(fid, f"slot {label} payload {payload[label]!r}: {f['kind']} failure in {f['file_kind']} ({f['detail'][:120]}) - payload is outside the Coq slot_guard of that site")
         else:
             vk = (tuple(sorted(c["slots"].items())), f["kind"], f["file_kind"])
+            vsum = run.extra.setdefault("violation_summary", {})
+            vkey = "%s | %s | %s" % ("+".join(sorted(set(c.get("classes", {}).values()))), f["kind"], f["file_kind"])
+            vsum[vkey] = vsum.get(vkey, 0) + 1
             if vk in seen_v:
                 continue
             seen_v.add(vk)
